@@ -203,29 +203,29 @@ func (c *Cond) Decide() (bool, bool) {
 		return c.C.Trivial()
 	case CRealGT:
 		switch signOf(c.E) {
-		case SignBigPos:
+		case SignBigPos, SignSmallPos:
 			return true, true
-		case SignBigNeg, SignZero:
+		case SignBigNeg, SignZero, SignSmallNeg:
 			return false, true
 		}
 	case CRealGE:
 		switch signOf(c.E) {
-		case SignBigPos, SignZero:
+		case SignBigPos, SignZero, SignSmallPos:
 			return true, true
-		case SignBigNeg:
+		case SignBigNeg, SignSmallNeg:
 			return false, true
 		}
 	case CRealEQ:
 		switch signOf(c.E) {
 		case SignZero:
 			return true, true
-		case SignBigPos, SignBigNeg:
+		case SignBigPos, SignBigNeg, SignSmallPos, SignSmallNeg:
 			return false, true
 		}
 	case CAbsLE:
 		switch signOf(c.E) {
-		case SignZero:
-			return true, true // tolerance is non-negative
+		case SignZero, SignSmallPos, SignSmallNeg:
+			return true, true // tolerance is non-negative; "small" means strictly inside it
 		case SignBigPos, SignBigNeg:
 			return false, true // "far more than the tolerance"
 		}
